@@ -94,6 +94,7 @@ class Curve(SplineObject):
         if not self.rational or d < 2 or d > 3:
             return super(Curve, self).derivative(t, d=d, above=above, tensor=tensor)
 
+        squeeze = is_singleton(t)
         t = ensure_listlike(t)
         result = np.zeros((len(t), self.dimension))
 
@@ -119,7 +120,7 @@ class Curve(SplineObject):
                 G1 =  H2*W - 2*H*W2 - H1*W1
                 result[:, i] = (G1*W - 3*G*W1) /W/W/W/W
 
-        if result.shape[0] == 1:  # in case of single value input t, return vector instead of matrix
+        if squeeze:  # in case of single value input t, return vector instead of matrix
             result = np.array(result[0, :]).reshape(self.dimension)
 
         return result
